@@ -57,7 +57,12 @@ class BoundedStream(io.IOBase):
         return self
 
     def __next__(self) -> bytes:
-        return next(self.stream)
+        # NOTE: Iterating over the wrapped stream directly would read past
+        #   the expected content length.
+        line = self.readline()
+        if not line:
+            raise StopIteration
+        return line
 
     next = __next__
 
@@ -139,7 +144,20 @@ class BoundedStream(io.IOBase):
 
         """
 
-        return self._read(hint, self.stream.readlines)
+        # NOTE: The wrapped stream's readlines() treats hint as approximate
+        #   (and 0 as no limit at all), so it cannot be used without reading
+        #   past the expected content length.
+        lines = []
+        total = 0
+        while True:
+            line = self.readline()
+            if not line:
+                break
+            lines.append(line)
+            total += len(line)
+            if hint is not None and 0 < hint <= total:
+                break
+        return lines
 
     def write(self, data: bytes) -> None:
         """Raise IOError always; writing is not supported."""
